@@ -394,15 +394,15 @@ def _enum_stream(ctx, name, space, runner, sym, quick_n, thorough_frac=1.0):
 
 
 def run(ctx):
-    for _, rng in ctx.cases("random", ctx.n(4000, 120000)):
+    for _, rng in ctx.cases("random", ctx.budget(180000, 3500000)):
         ctx.run_case(case_random, ctx, rng)
-    for _, rng in ctx.cases("matmul", ctx.n(400, 8000)):
+    for _, rng in ctx.cases("matmul", ctx.budget(20000, 300000)):
         ctx.run_case(case_matmul, ctx, rng)
-    for _, rng in ctx.cases("trace", ctx.n(300, 5000)):
+    for _, rng in ctx.cases("trace", ctx.budget(15000, 200000)):
         ctx.run_case(case_trace, ctx, rng)
-    for _, rng in ctx.cases("einsum", ctx.n(400, 8000)):
+    for _, rng in ctx.cases("einsum", ctx.budget(20000, 300000)):
         ctx.run_case(case_einsum, ctx, rng)
-    _enum_stream(ctx, "enum-transpose-Z2", enum_transpose_space("Z2"), run_enum_transpose, "Z2", 600)
-    _enum_stream(ctx, "enum-transpose-U1", enum_transpose_space("U1"), run_enum_transpose, "U1", 600, 0.5)
-    _enum_stream(ctx, "enum-contract-Z2", enum_contract_space("Z2", 2, 3), run_enum_contract, "Z2", 800)
-    _enum_stream(ctx, "enum-contract-U1", enum_contract_space("U1", 2, 2), run_enum_contract, "U1", 400, 0.05)
+    _enum_stream(ctx, "enum-transpose-Z2", enum_transpose_space("Z2"), run_enum_transpose, "Z2", 3000)
+    _enum_stream(ctx, "enum-transpose-U1", enum_transpose_space("U1"), run_enum_transpose, "U1", 6000, 1.0)
+    _enum_stream(ctx, "enum-contract-Z2", enum_contract_space("Z2", 2, 3), run_enum_contract, "Z2", 20000)
+    _enum_stream(ctx, "enum-contract-U1", enum_contract_space("U1", 2, 2), run_enum_contract, "U1", 8000, 0.5)
